@@ -926,7 +926,28 @@ class Interp:
             self.exec_body(s.orelse, env)
 
     def eval_cond(self, expr, env):
-        return as_bool_term(self.eval(expr, env))
+        return self.truth(self.eval(expr, env))
+
+    def truth(self, v):
+        """Python truthiness; containers are true iff non-empty"""
+        if isinstance(v, Ref):
+            st = self.st
+            if v.cls in ('list', 'tuple', 'deque'):
+                items = st.getf(v, 'items')
+                return bool(items) if isinstance(items, tuple) else (items.len > 0)
+            if v.cls == 'dict' or v.cls == 'defaultdict':
+                m = st.getf(v, 'map')
+                if not isinstance(m, SymMap):
+                    return bool(m)
+                k = z3.Const('trk', PyV)
+                return z3.Exists([k], m.has(k))
+            if v.cls == 'set':
+                e = st.getf(v, 'elems')
+                if isinstance(e, frozenset):
+                    return bool(e)
+                k = z3.Const('trk', PyV)
+                return z3.Exists([k], e.contains(k))
+        return as_bool_term(v)
 
     def st_Raise(self, s, env):
         if s.exc is None:
@@ -1194,7 +1215,7 @@ class Interp:
             v = self.eval(sub, env)
             if i == len(e.values) - 1:
                 return v
-            c = as_bool_term(v)
+            c = self.truth(v)
             t = self.st.branch(c, f'boolop@{e.lineno}')
             if is_and and not t:
                 return v
@@ -1205,7 +1226,7 @@ class Interp:
     def ex_UnaryOp(self, e, env):
         v = self.eval(e.operand, env)
         if isinstance(e.op, ast.Not):
-            return wrap_bool(z3_not(as_bool_term(v)))
+            return wrap_bool(z3_not(self.truth(v)))
         if isinstance(e.op, ast.USub):
             if isinstance(v, int):
                 return -v
@@ -1426,6 +1447,8 @@ class Interp:
             return v.value
         if isinstance(v, bool) or v is None or isinstance(v, int):
             return str(v)
+        if isinstance(v, ClsRef):
+            return f"<class '{v.name.split('::')[-1]}'>"
         if isinstance(v, SymB):
             return SymS(z3.If(v.t, z3.StringVal('True'), z3.StringVal('False')))
         if isinstance(v, SymI):
@@ -1451,6 +1474,11 @@ class Interp:
     def get_slice(self, obj, lo, hi):
         if isinstance(obj, (str, tuple)) and not is_symbolic(lo) and not is_symbolic(hi):
             return obj[lo:hi]
+        if isinstance(obj, SymV):
+            if self.st.branch(PyV.is_str_(obj.t), 'slice-of-str'):
+                obj = SymS(PyV.s(obj.t))
+            else:
+                raise Unsupported('slice of a non-string value')
         if isinstance(obj, (str, SymS)):
             s = self.as_str(obj)
             n = z3.Length(s)
@@ -1721,7 +1749,7 @@ class Interp:
     def bi_bool(self, it, ca):
         if not ca.args:
             return False
-        return wrap_bool(as_bool_term(ca.args[0]))
+        return wrap_bool(self.truth(ca.args[0]))
 
     def bi_isinstance(self, it, ca):
         return wrap_bool(self.isinstance_term(ca.args[0], ca.args[1]))
